@@ -22,6 +22,9 @@ var proseMenu = []struct{ name, text string }{
 	{"non-ascii", "Grammaire décrite ci-dessous → voilà ✓\n"},
 	{"crlf", "first line\r\nsecond line\r\n"},
 	{"indented", "    indented text\n\n> quote\n"},
+	{"bom-then-fence", "\ufeff"},
+	{"bom-line", "\ufeff\n"},
+	{"bom-text", "\ufeffA title\n"},
 }
 
 // mdFile builds a markdown file from code lines split at the given boundaries (bit i set: a new fenced block starts
@@ -197,7 +200,7 @@ func init() {
 			r.Add("seeds", 1)
 		}
 		sw.checkCross()
-		r.Set("rule", "per seed: the grammar split into bare ``` fenced blocks at every subset of its line boundaries, surrounded by prose from a menu (none, plain, heading with grammar-like text, inline code and tabs, non-ASCII, CRLF, indented/quote; with and without trailing prose lacking a final newline; closing fence as the very end of the file, followed by blank lines, CRLF or a space): gocc x.md must give the same exit status, stdout and byte-identical packages as gocc on the concatenated block contents; plus an illegal character (?) planted at token positions: the line:column of the diagnostic must be the token's position in the markdown file; distinct = (seed, split, prose) and (seed, planted position)")
+		r.Set("rule", "per seed: the grammar split into bare ``` fenced blocks at every subset of its line boundaries, surrounded by prose from a menu (none, plain, heading with grammar-like text, inline code and tabs, non-ASCII, CRLF, indented/quote, a byte order mark directly before a fence / on a line of its own / before text; with and without trailing prose lacking a final newline; closing fence as the very end of the file, followed by blank lines, CRLF or a space): gocc x.md must give the same exit status, stdout and byte-identical packages as gocc on the concatenated block contents; plus an illegal character (?) planted at token positions: the line:column of the diagnostic must be the token's position in the markdown file; distinct = (seed, split, prose) and (seed, planted position)")
 		return r.Finish(nil)
 	}
 }
